@@ -24,7 +24,7 @@ Definition kinds_at (t : list ((Z * Z) * (rng_site * rng_kind))) (s : rng_site) 
 Definition model_rule (s : rng_site) : list rng_kind :=
   match s with
   | SModelInit | SRegisterAgent | SSelect | SShuffle | SSort | SGroupBy
-  | SSpaceAgents | SAllCells | SCellSelect | SCellNbhd => [KSelfRandom]
+  | SSpaceAgents | SAllCells | SCellSelect | SCellNbhd | SExpSpaceAgents => [KSelfRandom]
   | SCreateAgents => [KModelRandom]
   | SLegacyAgents => [KFirstAgentOrNone; KFirstAgentOrNone; KFirstAgentOrNone]   (* _Grid, ContinuousSpace, NetworkGrid *)
   | _ => []
@@ -32,7 +32,7 @@ Definition model_rule (s : rng_site) : list rng_kind :=
 
 Definition modelled_sites : list rng_site :=
   [SModelInit; SRegisterAgent; SCreateAgents; SSelect; SShuffle; SSort; SGroupBy; SSpaceAgents; SAllCells;
-   SCellSelect; SCellNbhd; SLegacyAgents].
+   SCellSelect; SCellNbhd; SLegacyAgents; SExpSpaceAgents].
 
 Fixpoint kinds_beq (a b : list rng_kind) : bool :=
   match a, b with
@@ -82,6 +82,14 @@ Fixpoint gen_src (w : world) (d : term) : genid :=
   | TLegacyAgents =>
       kind_gen (src_kind SLegacyAgents) MODEL_GEN
                (match legacy_agents w with [] => None | _ => Some MODEL_GEN end)   (* agents[0].random = its model's *)
+  | TXAgents s =>
+      match znth (w_xspaces w) s with
+      | Some x =>
+          if xs_legacy x     (* MultiGrid / hex grids share _Grid.agents; NetworkGrid and ContinuousSpace have their own copy *)
+          then kind_gen (src_kind SLegacyAgents) MODEL_GEN (match xs_members x with [] => None | _ => Some MODEL_GEN end)
+          else kind_gen (src_kind SExpSpaceAgents) (xs_gen x) None                 (* self is the space *)
+      | None => OTHER_GEN
+      end
   end.
 
 Fixpoint cgen_src (w : world) (d : cterm) : genid :=
@@ -123,6 +131,9 @@ Section WithTable.
     - reflexivity.
     - sk SSpaceAgents. reflexivity.
     - sk SLegacyAgents. destruct (legacy_agents w); reflexivity.
+    - destruct (znth _ _) as [x|]; [|reflexivity]. destruct (xs_legacy x).
+      + sk SLegacyAgents. unfold legacy_fallback. destruct (xs_members x); reflexivity.
+      + sk SExpSpaceAgents. reflexivity.
   Qed.
 
   Lemma cgen_src_is_spec w d : cgen_src w d = cgen_spec w d.
@@ -204,4 +215,12 @@ Lemma reset_in_place_of_source seed cur rng std_ok np_ok dn ds :
   exists x s, gen_reset_randomizer seed cur rng std_ok np_ok dn ds = Some (None, Some x, None, Some s) /\ s = x.
 Proof.
   rewrite reset_randomizer_bridge. cbn. eexists. eexists. split; reflexivity.
+Qed.
+
+Lemma both_given_rejected_of_source seed rng std_ok np_ok dn ds cur :
+  gen_model_init seed rng std_ok np_ok dn ds cur = None <-> (seed <> None /\ rng <> None).
+Proof.
+  rewrite model_init_bridge. unfold m_model_init.
+  destruct seed, rng, std_ok, np_ok; cbn; split; intros H; try discriminate; try (destruct H; congruence);
+    split; discriminate.
 Qed.
